@@ -16,6 +16,7 @@
 //!        live chunk / byte counters are back where they were
 //!   C17  (chunker) no single request exceeds the block size
 use crate::fam_codecw::CodecWExec;
+use crate::fam_iovec::IovecExec;
 use crate::fam_iovec::fnv64;
 use crate::util::*;
 use hcobs::{Decoder, Encoder, StreamAction, StreamChunker, StreamReader};
@@ -638,6 +639,98 @@ impl ScaleExec {
         }
     }
 
+    /// C03 on the real objects: every consumer-side view (stable_prefix, front, iovs, flatten,
+    /// flatten_into, iteration, the consumer and the StableIovec wrappers) exposes the same slices,
+    /// and - with nothing pending - exactly `len()` slices / `total_size()` bytes.
+    fn watch_iovec_views(&mut self, so: &mut StepOut) {
+        let mut found: Vec<String> = Vec::new();
+        {
+            let Some(x) = self.inner.as_any_mut().and_then(|a| a.downcast_mut::<IovecExec>()) else { return };
+            if x.dead_memory {
+                return;
+            }
+            for (i, v) in x.iovs.iter_mut().enumerate() {
+                let Some(v) = v.as_mut() else { continue };
+                let mut bad = |what: String| {
+                    if found.len() < 4 {
+                        found.push(format!("C03 v{} {}", i, what));
+                    }
+                };
+                let pend = v.has_pending_backrefs();
+                let (n, size) = (v.len(), v.total_size());
+                let sp: Vec<(usize, usize)> = v.stable_prefix().iter().map(|s| (s.as_ptr() as usize, s.len())).collect();
+                let sp_bytes: usize = sp.iter().map(|s| s.1).sum();
+                if !pend && (sp.len() != n || sp_bytes != size) {
+                    bad(format!("nothing pending, but stable_prefix exposes {} slices / {} bytes of {} / {}", sp.len(), sp_bytes, n, size));
+                }
+                let same = |other: &[std::io::IoSlice<'_>]| -> bool {
+                    other.len() == sp.len() && other.iter().zip(sp.iter()).all(|(a, b)| (a.as_ptr() as usize, a.len()) == *b)
+                };
+                match v.iovs() {
+                    Ok(s) => {
+                        if pend || !same(s) {
+                            bad(format!("iovs() = Ok({} slices) with pending={} and a stable prefix of {} slices", s.len(), pend, sp.len()));
+                        }
+                    }
+                    Err(s) => {
+                        if !pend || !same(s) {
+                            bad(format!("iovs() = Err({} slices) with pending={} and a stable prefix of {} slices", s.len(), pend, sp.len()));
+                        }
+                    }
+                }
+                let it: Vec<std::io::IoSlice<'_>> = (&*v).into_iter().copied().collect();
+                if !same(&it) {
+                    bad(format!("iteration yields {} slices, stable_prefix {}", it.len(), sp.len()));
+                }
+                match (v.front(), sp.first()) {
+                    (None, None) => {}
+                    (Some(f), Some(b)) if (f.as_ptr() as usize, f.len()) == *b => {}
+                    _ => bad("front() is not the first slice of stable_prefix".into()),
+                }
+                let fl = match v.flatten() {
+                    Ok(b) | Err(b) => b,
+                };
+                if fl.len() != sp_bytes {
+                    bad(format!("flatten() gives {} bytes, the stable prefix holds {}", fl.len(), sp_bytes));
+                }
+                let fi = match v.flatten_into(vec![0xEE, 0xEE, 0xEE]) {
+                    Ok(b) | Err(b) => b,
+                };
+                if fi.len() != sp_bytes + 3 || fi[..3] != [0xEE, 0xEE, 0xEE] || fi[3..] != fl[..] {
+                    bad(format!("flatten_into() gives {} bytes after a 3-byte prefix, flatten() {}", fi.len().saturating_sub(3), fl.len()));
+                }
+                {
+                    let c = v.consumer();
+                    let cs: Vec<(usize, usize)> = c.stable_prefix().iter().map(|s| (s.as_ptr() as usize, s.len())).collect();
+                    if cs != sp || c.total_size() != size || c.len() != n {
+                        bad(format!("consumer() sees {} stable slices / size {} / len {}", cs.len(), c.total_size(), c.len()));
+                    }
+                }
+                match v.stable_consumer() {
+                    Ok(st) => {
+                        let sl = st.iovs();
+                        let sb: usize = sl.iter().map(|s| s.len()).sum();
+                        let f2 = st.flatten();
+                        if pend || sl.len() != n || sb != size || f2.len() != size || f2 != fl {
+                            bad(format!(
+                                "stable_consumer(): {} slices / {} bytes, flatten {} bytes; the iovec holds {} / {} (pending={})",
+                                sl.len(), sb, f2.len(), n, size, pend
+                            ));
+                        }
+                    }
+                    Err(_) => {
+                        if !pend {
+                            bad("stable_consumer() refused although nothing is pending".into());
+                        }
+                    }
+                }
+            }
+        }
+        for f in found {
+            self.viol(so, f);
+        }
+    }
+
     fn watch_codec(&mut self, so: &mut StepOut, words: &[&str]) {
         if matches!(words.first().copied(), Some("enc_new") | Some("dec_new")) {
             self.codecs += 1;
@@ -787,7 +880,10 @@ impl ScaleExec {
             return so;
         }
         match self.kind {
-            Kind::Iovec => self.watch_iovec_lines(&mut so),
+            Kind::Iovec => {
+                self.watch_iovec_lines(&mut so);
+                self.watch_iovec_views(&mut so);
+            }
             Kind::Codec => {
                 self.watch_iovec_lines(&mut so);
                 self.watch_codec(&mut so, &ew);
